@@ -51,3 +51,17 @@ WITNESSES = [
 
 def text(sig, rules):
     return 'signature\n' + sig + '\n\nconditionals\nkb{\n' + ',\n'.join(rules) + '\n}\n'
+
+
+def asts(i):
+    """(name, sig, conds, queries, extended_only) of witness i as formula ASTs (read through the repository's
+    parser, whose meaning is C10's matter, and back structurally)"""
+    from parser.Wrappers import parse_belief_base, parse_queries
+    from . import fml
+    name, sigt, rules, qtexts, extended_only = WITNESSES[i]
+    bb0 = parse_belief_base(text(sigt, rules))
+    sig = list(bb0.signature)
+    conds = [(fml.from_pysmt(c.consequence), fml.from_pysmt(c.antecedence)) for c in bb0.conditionals.values()]
+    qs = [(fml.from_pysmt(c.consequence), fml.from_pysmt(c.antecedence))
+          for c in parse_queries(','.join(qtexts)).conditionals.values()]
+    return name, sig, conds, qs, extended_only
